@@ -1059,12 +1059,14 @@ bool mesh_evaluate_impl(const void *, const NodeView &view,
   prepare_mesh_evaluation_candidates(view, context, storage, evaluation_time);
 
   std::size_t guard = 0;
+  std::size_t restarts = 0;
   while (true) {
     static_cast<void>(drain_due_mesh_schedules(storage, evaluation_time));
     // Snapshot candidate slots by rank. add_dependency can create or re-rank
     // instances mid-pass, so the next pass rematerializes this order.
     materialize_mesh_evaluation_order(storage);
     bool evaluated = false;
+    bool restarted = false;
 
     for (const auto &ranked : storage.evaluation_order) {
       MeshEntry *entry = storage.entries.entry_at(ranked.second);
@@ -1099,6 +1101,7 @@ bool mesh_evaluate_impl(const void *, const NodeView &view,
       auto clear_current_key = make_scope_exit(
           [&storage]() noexcept { storage.current_eval_key = {}; });
       entry->paused = false;
+      const std::size_t candidates_before = storage.evaluation_candidates.count();
       if (child.evaluate(evaluation_time)) {
         entry->settled_time = evaluation_time;
         runtime_detail::finalize_mapped_child_output(
@@ -1116,6 +1119,24 @@ bool mesh_evaluate_impl(const void *, const NodeView &view,
       } else {
         entry->schedule_context.pulled_when = MAX_DT;
       }
+
+      // A pause re-ranks instances, and an evaluation whose output ticked can
+      // make a lower-ranked sibling due. Either way this rank snapshot is
+      // stale: rematerialize it before a higher-ranked candidate is evaluated,
+      // or that candidate settles on a sibling that has not had its turn yet.
+      const bool queued = drain_due_mesh_schedules(storage, evaluation_time);
+      if (entry->paused || queued ||
+          storage.evaluation_candidates.count() != candidates_before) {
+        restarted = true;
+        break;
+      }
+    }
+
+    if (restarted) {
+      if (++restarts > 64 * (storage.active_count() + 64)) {
+        throw std::runtime_error("mesh_ failed to settle within the cycle");
+      }
+      continue;
     }
 
     if (++guard > storage.active_count() + 64) {
